@@ -1293,3 +1293,40 @@ Proof.
   rewrite E in Hr. injection Hr as -> ->. apply forallb_all_one in Hall. destruct Hall as [H1 _].
   rewrite H1. reflexivity.
 Qed.
+
+(* ---------- C05: a request that names no URL is never matched by Location ---------- *)
+(* in particular a registered endpoint whose Location is "" (the metadata parser
+   blanks the Location of endpoints with unknown bindings) is not selected
+   because "" = "": with no URL in the request the selected endpoint matched the
+   requested index, or — the request naming no index either — has a browser binding *)
+Theorem empty_url_never_selects_by_location md rq di ei d e :
+  rq_acs_url rq = "" -> get_acs_endpoint md rq = Some (di, ei, d, e) ->
+  (rq_acs_index rq <> "" /\ itoa (ep_index e) = rq_acs_index rq) \/
+  (rq_acs_index rq = "" /\ (ep_binding e = post_binding \/ ep_binding e = redirect_binding)).
+Proof.
+  intros Hu H. apply get_acs_endpoint_spec in H.
+  destruct H as [Hi Hm | _ Hne _ | Hi _ Hm | Hi _ _ Hm].
+  - left. split; [exact Hi|]. apply first_match_registered in Hm. destruct Hm as (_ & _ & _ & _ & Hp).
+    apply p_index_iff. exact Hp.
+  - contradiction.
+  - right. split; [exact Hi|]. apply first_match_registered in Hm. destruct Hm as (_ & _ & _ & _ & Hp).
+    apply p_default_iff in Hp. tauto.
+  - right. split; [exact Hi|]. apply first_match_registered in Hm. destruct Hm as (_ & _ & _ & _ & Hp).
+    apply p_browser_iff. exact Hp.
+Qed.
+
+(* a request whose only selector is an index that no registered endpoint carries is refused *)
+Corollary unregistered_index_only_refused md rq :
+  rq_acs_url rq = "" -> rq_acs_index rq <> "" ->
+  desc_none_match (p_index (rq_acs_index rq)) (descriptors md) = true ->
+  get_acs_endpoint md rq = None.
+Proof. intros Hu Hi Hn. apply get_acs_endpoint_no_match; auto. Qed.
+
+Example ex_blank_location_not_matched :
+  let md := {| md_entity := "e"; descriptors := [ {| acs := [ {| ep_binding := "urn:oasis:names:tc:SAML:2.0:bindings:PAOS"; ep_location := ""; ep_index := 0; ep_default := None |};
+                                                               {| ep_binding := post_binding; ep_location := "https://sp/acs"; ep_index := 1; ep_default := None |} ];
+                                                      kds := []; attr_services := [] |} ] |} in
+  let rq i := {| rq_id := "x"; rq_version := "2.0"; rq_issue := 0; rq_destination := ""; rq_issuer := Some "e"; rq_acs_url := ""; rq_acs_index := i |} in
+  (match get_acs_endpoint md (rq "") with Some (_, ei, _, _) => ei | None => -1 end,
+   match get_acs_endpoint md (rq "7") with Some (_, ei, _, _) => ei | None => -1 end) = (1, -1).
+Proof. reflexivity. Qed.
